@@ -112,15 +112,58 @@ fn check(b: &EventBuffer) -> Truth {
     t
 }
 
-const MAX_BIN: u16 = 2;
+const MAX_BIN: u16 = 1;
 const MAX_DBL: u16 = 1;
 
 /// nondeterministic "fits / does not fit" instead of the real encoder (the encoders are C09/C10 territory)
+static mut SYMBOLIC: bool = false;
+
 fn write_stub(_e: &Event, _index: u16, _cursor: &mut WriteCursor, _writer: &mut EventWriter) -> Result<(), BadWrite> {
-    if kani::any() {
+    if unsafe { !SYMBOLIC } || kani::any() {
         Ok(())
     } else {
         Err(BadWrite)
+    }
+}
+
+/// data of the operations: concrete in the prefix of a skeleton (so that symbolic execution folds it), symbolic from
+/// the position the generator names
+static mut INSERTS: u8 = 0;
+
+/// class of an inserted event: in the concrete prefix of skeletons that start with two inserts the FIRST record goes to
+/// class 2 and the others to class 1, so that a class-1 poll leaves an older record of another class in front
+fn pick_insert_class() -> EventClass {
+    let k = unsafe { INSERTS };
+    unsafe { INSERTS += 1 };
+    if unsafe { SYMBOLIC } {
+        any_class()
+    } else if k == 0 && unsafe { FIRST_CLASS2 } {
+        EventClass::Class2
+    } else {
+        EventClass::Class1
+    }
+}
+static mut FIRST_CLASS2: bool = false;
+
+fn pick_class() -> EventClass {
+    if unsafe { SYMBOLIC } {
+        any_class()
+    } else {
+        EventClass::Class1
+    }
+}
+fn pick_u16(concrete: u16) -> u16 {
+    if unsafe { SYMBOLIC } {
+        kani::any()
+    } else {
+        concrete
+    }
+}
+fn pick_bool(concrete: bool) -> bool {
+    if unsafe { SYMBOLIC } {
+        kani::any()
+    } else {
+        concrete
     }
 }
 
@@ -131,11 +174,11 @@ fn step(b: &mut EventBuffer, app: &mut App, out: &mut [u8; 16], op: u8) {
     match op {
         // insert binary / double-bit
         0 | 1 => {
-            let index: u16 = kani::any();
-            let class = any_class();
+            let index: u16 = pick_u16(7);
+            let class = pick_insert_class();
             let next_id = b.next;
             let r = if op == 0 {
-                b.insert(index, class, &BinaryInput::new(kani::any(), Flags::new(kani::any()), Time::unsynchronized(0)), EventBinaryInputVariation::Group2Var1)
+                b.insert(index, class, &BinaryInput::new(pick_bool(true), Flags::ONLINE, Time::unsynchronized(0)), EventBinaryInputVariation::Group2Var1)
             } else {
                 b.insert(index, class, &DoubleBitBinaryInput::new(DoubleBit::DeterminedOn, Flags::ONLINE, Time::unsynchronized(0)), EventDoubleBitBinaryInputVariation::Group4Var1)
             };
@@ -176,7 +219,6 @@ fn step(b: &mut EventBuffer, app: &mut App, out: &mut [u8; 16], op: u8) {
                     }
                     assert!(found);
                     let _ = seen_same_type_older;
-                    kani::cover!(true);
                 }
                 Err(InsertError::TypeMaxIsZero) => panic!("both types have capacity"),
             }
@@ -190,8 +232,8 @@ fn step(b: &mut EventBuffer, app: &mut App, out: &mut [u8; 16], op: u8) {
         }
         // select by class with/without limit
         2 => {
-            let c = any_class();
-            let limit: Option<usize> = if kani::any() { Some(1) } else { None };
+            let c = pick_class();
+            let limit: Option<usize> = if pick_bool(false) { Some(1) } else { None };
             let n = b.select_by_class(c.into(), limit);
             let after = check(b);
             assert!(after.n == before.n);
@@ -286,14 +328,66 @@ fn step(b: &mut EventBuffer, app: &mut App, out: &mut [u8; 16], op: u8) {
     }
 }
 
-fn run_skeleton(ops: &[u8]) {
+/// `symbolic_from`: position of the first operation whose data is symbolic
+fn run_skeleton(ops: &[u8], symbolic_from: usize) {
+    // skeletons that begin with two inserts put the first record into class 2 (it stays unselected by the class-1 poll)
+    unsafe { FIRST_CLASS2 = ops.len() >= 2 && ops[0] <= 1 && ops[1] <= 1 };
     let mut b = EventBuffer::new(EventBufferConfig::new(MAX_BIN, MAX_DBL, 0, 0, 0, 0, 0, 0));
     let mut app = App { cleared: [0; 4], n: 0 };
     let mut out = [0u8; 16];
+    unsafe { INSERTS = 0 };
+    let mut i = 0;
     for o in ops {
+        unsafe { SYMBOLIC = i >= symbolic_from };
         step(&mut b, &mut app, &mut out, *o);
+        i += 1;
     }
     kani::cover!(true);
 }
 
 include!(concat!(env!("VERIF_GEN_DIR"), "/event_buffer_gen.rs"));
+
+// @harness c13_overflow_bit_all_types
+// @props C13,C03
+// @tier quick
+// @timeout 900
+// @mem 4
+// @units EventBuffer::{clear_written, is_any_full, is_full, is_overflown}, Insertable::{get_max,get_type_count} for all eight event types
+// @bounds one inductive step over a symbolic ledger: capacities of the eight event types any 0..=3, per-type totals any 0..=capacity, overflow flag any; a confirm that releases nothing: the overflow indication is cleared <=> NO type with non-zero capacity is at capacity (every one of the eight types is consulted), and is never set by a confirm
+#[kani::proof]
+#[kani::unwind(10)]
+fn c13_overflow_bit_all_types() {
+    let caps: [u16; 8] = kani::any();
+    let cnt: [usize; 8] = kani::any();
+    let mut i = 0;
+    while i < 8 {
+        kani::assume(caps[i] <= 3 && cnt[i] <= caps[i] as usize);
+        i += 1;
+    }
+    let mut b = EventBuffer::new(EventBufferConfig::new(caps[0], caps[1], caps[2], caps[3], caps[4], caps[5], caps[6], caps[7]));
+    b.total.types.num_binary.value = cnt[0];
+    b.total.types.num_double_binary.value = cnt[1];
+    b.total.types.num_binary_output_status.value = cnt[2];
+    b.total.types.num_counter.value = cnt[3];
+    b.total.types.num_frozen_counter.value = cnt[4];
+    b.total.types.num_analog.value = cnt[5];
+    b.total.types.num_analog_output_status.value = cnt[6];
+    b.total.types.num_octet_string.value = cnt[7];
+    let before: bool = kani::any();
+    b.is_overflown = before;
+    let mut app = App { cleared: [0; 4], n: 0 };
+    let released = b.clear_written(&mut app);
+    assert!(released == 0 && app.n == 0);
+    let mut any_full = false;
+    let mut i = 0;
+    while i < 8 {
+        if caps[i] != 0 && cnt[i] >= caps[i] as usize {
+            any_full = true;
+        }
+        i += 1;
+    }
+    assert!(b.is_overflown() == (before && any_full));
+    kani::cover!(before && !any_full);
+    kani::cover!(before && any_full && cnt[4] == caps[4] as usize && caps[4] != 0);
+    std::mem::forget(b);
+}
